@@ -590,6 +590,186 @@ struct BufSys {
     }
 };
 
+
+// ---------------------------------------------------------------------------------------------- very large buffers
+// The property has no upper bound on the size.  Sizes at which a size_t no longer fits an int / a 32-bit integer are
+// reached with lazily mapped blocks (alloc.h: address space only): every operation that does not have to touch all
+// elements is run on buffers of 2^31 and 2^32 elements and checked for ownership, size, terminator and release.
+template <class T>
+struct HugeSys {
+    typedef ST::buffer<T> B;
+    std::string nm;
+    bool thorough;
+    uint64_t n_checks = 0, n_scen = 0;
+    HugeSys(bool t) : thorough(t) { nm = strf("buffer<%s>: 2^31 / 2^32 elements (lazily mapped)", TypeName<T>::get()); }
+    const char *name() const { return nm.c_str(); }
+    size_t op_count() const { return 0; }
+    bool enabled(size_t) const { return false; }
+    std::string op_name(size_t) const { return ""; }
+    void reset() {}
+    void apply(size_t, bool, hx::Fails &) {}
+    std::string key() const { return "huge"; }
+    bool nontrivial() const { return true; }
+
+    struct Slot {
+        alignas(16) unsigned char fence0[32];
+        alignas(16) unsigned char mem[sizeof(B)];
+        unsigned char fence1[32];
+        B *obj() { return reinterpret_cast<B *>(mem); }
+        bool inside(const void *p) const { return (const unsigned char *)p >= mem && (const unsigned char *)p < mem + sizeof(B); }
+    };
+
+    void scenario(size_t N, hx::Fails &f)
+    {
+        ++n_scen;
+        const char *tn = TypeName<T>::get();
+        auto fail = [&](const char *step, const std::string &what) {
+            f.push_back(hx::Fail{strf("c05:%s:huge:%s:%s", tn, step, what.c_str()), strf("buffer<%s> with %zu elements, %s: %s", tn, N, step, what.c_str())});
+        };
+        Slot *s0 = new Slot, *s1 = new Slot;
+        memset(s0, 0xCD, sizeof *s0);
+        memset(s1, 0xCD, sizeof *s1);
+        vf::events_reset();
+        vf::huge_reset();
+        const size_t saved_max = vf::g_alloc.max_request;
+        vf::g_alloc.max_request = ~size_t(0) / 2;
+        vf::g_alloc.huge_lazy = true;
+        auto valid_empty = [&](B *b, Slot *sl, const char *step, const char *who) {
+            ++n_checks;
+            if (b->size() != 0) fail(step, strf("%s:size-not-zero", who));
+            else if (!sl->inside(b->data())) fail(step, strf("%s:data-not-in-object", who));
+            else if (b->data()[0] != 0) fail(step, strf("%s:no-terminator", who));
+        };
+        // after a move assignment the source is only required to be a valid object (the library swaps the two values)
+        auto valid_any = [&](B *b, Slot *sl, const char *step, const char *who) {
+            ++n_checks;
+            if (b->size() < B::local_length) {
+                if (!sl->inside(b->data())) fail(step, strf("%s:short-content-not-in-object", who));
+                else if (b->data()[b->size()] != 0) fail(step, strf("%s:no-terminator", who));
+            } else {
+                const vf::AllocState::Huge *h = vf::find_huge(b->data());
+                if (!h) fail(step, strf("%s:long-content-not-on-a-live-block", who));
+                else if (h->size < (b->size() + 1) * sizeof(T)) fail(step, strf("%s:block-too-small", who));
+                else if (b->data()[b->size()] != 0) fail(step, strf("%s:no-terminator", who));
+            }
+        };
+        auto owns = [&](B *b, const void *p, const char *step, const char *who) {
+            ++n_checks;
+            if (b->size() != N) fail(step, strf("%s:size", who));
+            else if ((const void *)b->data() != p) fail(step, strf("%s:does-not-own-the-block", who));
+            else if (b->data()[N] != 0) fail(step, strf("%s:no-terminator", who));
+        };
+        auto live = [&](size_t want, const char *step) {
+            ++n_checks;
+            if (vf::live_huge() != want) fail(step, strf("%zu-large-blocks-live-expected-%zu", vf::live_huge(), want));
+            if (vf::events_total()) fail(step, std::string("heap-event:") + vf::g_alloc.first_event);
+        };
+        vf::Outcome oc = vf::guard([&] {
+            hx::note_phase(strf("huge %zu: allocate", N).c_str());
+            B *b = new (s0->mem) B();
+            b->allocate(N);
+            const void *p = b->data();
+            if (!vf::find_huge(p)) fail("allocate", "data-not-the-allocated-block");
+            owns(b, p, "allocate", "target");
+            live(1, "allocate");
+            ++n_checks;
+            if (b->empty() || b->end() - b->begin() != (ptrdiff_t)N || &b->back() != b->data() + (N - 1)) fail("allocate", "accessors");
+            hx::note_phase(strf("huge %zu: move-ctor", N).c_str());
+            B *m = new (s1->mem) B(std::move(*b));
+            owns(m, p, "move-ctor", "target");
+            valid_empty(b, s0, "move-ctor", "moved-from");
+            live(1, "move-ctor");
+            b->~B();
+            live(1, "destroy moved-from");
+            hx::note_phase(strf("huge %zu: move-assign", N).c_str());
+            static const T AB[3] = {T('a'), T('b'), T(0)};
+            B *c = new (s0->mem) B(AB, 2);
+            *c = std::move(*m);
+            owns(c, p, "move-assign", "target");
+            valid_any(m, s1, "move-assign", "moved-from");
+            live(1, "move-assign");
+            hx::note_phase(strf("huge %zu: clear", N).c_str());
+            c->clear();
+            valid_empty(c, s0, "clear", "target");
+            live(0, "clear");
+            hx::note_phase(strf("huge %zu: destroy", N).c_str());
+            c->allocate(N);
+            owns(c, c->data(), "allocate again", "target");
+            live(1, "allocate again");
+            c->~B();
+            live(0, "destroy");
+            m->~B();
+            hx::note_phase(strf("huge %zu: shrink", N).c_str());
+            B *d = new (s0->mem) B();
+            d->allocate(N);
+            d->allocate(3);
+            ++n_checks;
+            if (d->size() != 3 || !s0->inside(d->data()) || d->data()[3] != 0) fail("allocate(3) over a large buffer", "target-invalid");
+            live(0, "allocate(3) over a large buffer");
+            d->allocate(N);
+            B *e = new (s1->mem) B(AB, 2);
+            hx::note_phase(strf("huge %zu: copy-assign short", N).c_str());
+            *d = *e;
+            ++n_checks;
+            if (d->size() != 2 || !s0->inside(d->data()) || d->data()[0] != T('a') || d->data()[2] != 0) fail("copy-assign short over large", "target-invalid");
+            live(0, "copy-assign short over large");
+            hx::note_phase(strf("huge %zu: move-assign large into large", N).c_str());
+            d->allocate(N);
+            e->allocate(N + 1);
+            const void *pe = e->data();
+            *d = std::move(*e);
+            ++n_checks;
+            if (d->size() != N + 1 || (const void *)d->data() != pe) fail("move-assign large over large", "target-does-not-own-the-source-block");
+            valid_any(e, s1, "move-assign large over large", "moved-from");
+            ++n_checks;
+            if (e->size() >= B::local_length && e->data() == d->data()) fail("move-assign large over large", "source-and-target-share-a-block");
+            e->clear();
+            live(1, "move-assign large over large, source cleared");
+            if (thorough && sizeof(T) == 1 && N == (size_t(1) << 31)) {
+                hx::note_phase(strf("huge %zu: copy-ctor", N).c_str());
+                d->data()[0] = T('x');
+                d->data()[N / 2] = T('y');
+                d->data()[N] = T('z');
+                e->~B();
+                e = new (s1->mem) B(*d);
+                ++n_checks;
+                if (e->size() != N + 1 || e->data() == d->data() || e->data()[0] != T('x') || e->data()[N / 2] != T('y') || e->data()[N] != T('z') ||
+                    e->data()[N + 1] != 0)
+                    fail("copy-ctor", "target-wrong");
+                live(2, "copy-ctor");
+                ++n_checks;
+                if (!(*e == *d) || e->compare(*d) != 0) fail("copy-ctor", "copy-compares-different");
+            }
+            e->~B();
+            d->~B();
+            live(0, "destroy all");
+        });
+        if (!oc.ok()) fail("scenario", std::string(vf::outkind_name(oc.kind)) + ":" + oc.str().substr(0, 80));
+        for (Slot *sl : {s0, s1})
+            for (int k = 0; k < 32; ++k)
+                if (sl->fence0[k] != 0xCD || sl->fence1[k] != 0xCD) {
+                    fail("scenario", "write-outside-object");
+                    break;
+                }
+        vf::huge_reset();
+        vf::g_alloc.huge_lazy = false;
+        vf::g_alloc.max_request = saved_max;
+        delete s0;
+        delete s1;
+    }
+    void on_new_state(hx::Fails &f)
+    {
+        for (size_t N : {size_t(1) << 31, (size_t(1) << 31) + 7, size_t(1) << 32, (size_t(1) << 32) + 5}) scenario(N, f);
+        hx::note_phase("reads");
+    }
+    void samples(std::vector<std::string> &out) const { out.push_back(strf("%s: %llu scenarios, %llu checks", nm.c_str(), (unsigned long long)n_scen, (unsigned long long)n_checks)); }
+    void counters(std::map<std::string, uint64_t> &c) const
+    {
+        c["huge-buffer-scenarios"] += n_scen;
+        c["huge-buffer-checks"] += n_checks;
+    }
+};
+
 template <class T>
 static void add(std::vector<hx::Job> &jobs, int nslots, hx::Limits lim, bool reduced = false)
 {
@@ -611,6 +791,15 @@ static void build(std::vector<hx::Job> &jobs, const vf::Opts &o, std::string &ru
     add<char16_t>(jobs, 2, lim);
     add<wchar_t>(jobs, 2, lim);
     add<char32_t>(jobs, 2, lim);
+    {
+        bool T = o.thorough();
+        hx::Limits l1;
+        l1.max_depth = 0;
+        jobs.push_back(hx::make_job<HugeSys<char>>([T]() { return new HugeSys<char>(T); }, l1));
+        jobs.push_back(hx::make_job<HugeSys<char16_t>>([T]() { return new HugeSys<char16_t>(T); }, l1));
+        jobs.push_back(hx::make_job<HugeSys<wchar_t>>([T]() { return new HugeSys<wchar_t>(T); }, l1));
+        jobs.push_back(hx::make_job<HugeSys<char32_t>>([T]() { return new HugeSys<char32_t>(T); }, l1));
+    }
     if (o.thorough()) {
         // three objects (chains a -> b -> c, three-way aliasing) over a reduced value alphabet {1, limit}
         add<char>(jobs, 3, lim, true);
